@@ -237,15 +237,24 @@ def hex_line(rtype, addr, data):
 def hex_gen(rnd):
     """list of records (type, addr, data) with correct payload sizes for their type"""
     recs = []
-    nxt = None
+    nxt = prv = None
     for _ in range(rnd.randrange(1, 8)):
         k = rnd.random()
         if k < 0.6:
             # data records usually follow each other without a gap
-            a = nxt if (nxt is not None and nxt < 0xFFF0 and rnd.random() < 0.5) else rnd.getrandbits(16)
-            d = bytes(rnd.getrandbits(8) for _ in range(rnd.randrange(1, 17)))
+            d = bytes(rnd.getrandbits(8) for _ in range(rnd.randrange(1, 17) if rnd.random() < 0.7 else rnd.randrange(1, 4)))
+            k2 = rnd.random()
+            if nxt is not None and nxt < 0xFFF0 and k2 < 0.4:
+                a = nxt  # right after the previous record
+            elif prv is not None and prv - len(d) >= 0 and k2 < 0.65:
+                a = prv - len(d)  # right before it (written back to front)
+            elif nxt is not None and nxt < 0xFFE0 and k2 < 0.8:
+                a = nxt + rnd.randrange(1, 7)  # after a hole of a few bytes
+            else:
+                a = rnd.getrandbits(16)
             recs.append((0, a, d))
             nxt = a + len(d)
+            prv = a
         elif k < 0.7:
             recs.append((2, 0, bytes(rnd.getrandbits(8) for _ in range(2))))
         elif k < 0.8:
@@ -267,15 +276,24 @@ def srec_line(rtype, addr, data):
 
 def srec_gen(rnd):
     recs = [(0, 0, b"HDR")]
-    nxt = None
+    nxt = prv = None
     for _ in range(rnd.randrange(1, 7)):
         t = [1, 2, 3][rnd.randrange(3)]
         alen = {1: 2, 2: 3, 3: 4}[t]
         # data records usually follow each other without a gap
-        a = nxt if (nxt is not None and nxt < 0xFFF0 and rnd.random() < 0.5) else rnd.getrandbits(8 * alen)
-        d = bytes(rnd.getrandbits(8) for _ in range(rnd.randrange(1, 17)))
+        d = bytes(rnd.getrandbits(8) for _ in range(rnd.randrange(1, 17) if rnd.random() < 0.7 else rnd.randrange(1, 4)))
+        k2 = rnd.random()
+        if nxt is not None and nxt < min(0xFFF0, (1 << (8 * alen)) - 32) and k2 < 0.4:
+            a = nxt
+        elif prv is not None and 0 <= prv - len(d) < (1 << (8 * alen)) - 32 and k2 < 0.65:
+            a = prv - len(d)
+        elif nxt is not None and nxt < min(0xFFE0, (1 << (8 * alen)) - 48) and k2 < 0.8:
+            a = nxt + rnd.randrange(1, 7)
+        else:
+            a = rnd.getrandbits(8 * alen)
         recs.append((t, a, d))
         nxt = a + len(d)
+        prv = a
     t = [9, 8, 7][rnd.randrange(3)]
     recs.append((t, rnd.getrandbits(8 * {9: 2, 8: 3, 7: 4}[t]), b""))
     return recs
